@@ -366,11 +366,16 @@ class Open(State):
 
         self.association.tracking_events()
 
+        #: Leaving the Open state ends this tick: going on to the send/receive
+        #: handling below would overwrite the transition just taken with
+        #: "stay Open" whenever a message happens to be pending.
         if self.is_set_release_signal_from_peer():
-            self.event_open_peer_disc()      
+            self.event_open_peer_disc()
+            return
 
         if self.is_set_release_signal_from_local():
             self.event_stop()
+            return
 
         if self.has_send_queue_message():
             self.make_default_logging(queue="send")
